@@ -83,6 +83,9 @@ func keyPath() string {
 	if w := os.Getenv("VERIF_WORK"); w != "" {
 		return w + "/build/keys.json"
 	}
+	if r := os.Getenv("VERIF_ROOT"); r != "" {
+		return r + "/build/keys.json"
+	}
 	return "/verif/build/keys.json"
 }
 
